@@ -292,7 +292,7 @@ def h_intoexp(F, R):
                 r1 = lf.roots(operands[1], stop=S) & S
                 # shadowing `let lhs = lhs.into_exp(..)`: follow through
                 okp = r0 == {ids[1]} and r1 == {ids[2]}
-                detail += "; operand sources %s / %s" % (sorted(lf.names.get(i, i) for i in r0), sorted(lf.names.get(i, i) for i in r1))
+                detail += "; operand sources %s / %s" % (sorted(str(lf.names.get(i, i)) for i in r0), sorted(str(lf.names.get(i, i)) for i in r1))
             R.ob("H-INTOEXP", "binop:" + v, okc and okp, F.loc(f, arm["body"]), detail)
     for f, m in table.find_matches(F, scrut_ty=UNOP):
         heads = {}
